@@ -245,6 +245,36 @@ def impl(case):
             EV.reset()
             second = dict(result=res2, n_data=log2.count('data'),
                           unchanged=path.exists() and path.read_bytes() == content)
+            if len(content) > 0 and path.exists():
+                # third call in the same process: the file was overwritten in between by a body of the SAME size with its
+                # timestamps put back (a prior state like any other: "every prior state of the target file"); the server
+                # still publishes the checksum of the good content and serves it.  A normal return must leave the
+                # good content; nothing remembered from the earlier calls may vouch for the file.
+                import os
+                st_ = os.stat(path)
+                bad = bytes([content[0] ^ 0x5a]) + content[1:]
+                path.write_bytes(bad)
+                os.utime(path, ns=(st_.st_atime_ns, st_.st_mtime_ns))
+                log3 = []
+
+                def data3_cb(request):
+                    log3.append('data')
+                    return (200, {}, content)
+
+                def sum3_cb(request):
+                    log3.append('sum')
+                    return (200, {}, hashlib.md5(content).hexdigest() + '  data.bin\n')
+                with responses.RequestsMock(assert_all_requests_are_fired=False) as rsps3:
+                    rsps3.add_callback(responses.GET, URL, callback=data3_cb)
+                    rsps3.add_callback(responses.GET, URL + '.md5', callback=sum3_cb)
+                    try:
+                        ret3 = DS.download_file(URL, path)
+                        res3 = 'skipped' if ret3 is not None else 'done'
+                    except Exception as e:  # noqa
+                        res3 = 'raised:%s' % type(e).__name__
+                EV.reset()
+                second['third'] = dict(result=res3, n_data=log3.count('data'),
+                                       good=path.exists() and path.read_bytes() == content)
     tok = None
     if content is not None:
         tok = [k for k, v in bodies.items() if v == content]
@@ -399,6 +429,12 @@ def judge(case, impl_res, ans):
         return ('SPEC: a valid existing file was downloaded again (second call in a row against a server publishing the '
                 'checksum of the file the first call left: result %s, %d data request(s), file %s)' % (
                     sec['result'], sec['n_data'], 'unchanged' if sec['unchanged'] else 'CHANGED'))
+    th = (sec or {}).get('third')
+    if th is not None and th['result'] in ('skipped', 'done') and not th['good']:
+        # main clause, in the state a history of calls left: normal return, checksum available, file MD5 != published
+        return ('SPEC: returned normally but the file MD5 differs from the published checksum (third call in a row; the file '
+                'had been overwritten by a corrupt body of the same size and timestamps: result %s, %d data request(s))' % (
+                    th['result'], th['n_data']))
     if ok['result'] != m['result'] or ok['file'] != m['file'] or ok['log'] != m['log']:
         # an exception of another type than HTTPError / RuntimeError: the statement forbids normal returns (with a bad
         # file, after an HTTP error, after a persistent mismatch), re-downloading a valid file and a second retry - all
@@ -445,6 +481,8 @@ def tally(rep, case, impl_res, ans):
         rep.count('data_requests:%d' % impl_res['ok']['log'].count('data'))
         if impl_res['ok'].get('second') is not None:
             rep.count('second_call_in_a_row:%s' % impl_res['ok']['second']['result'])
+            if impl_res['ok']['second'].get('third'):
+                rep.count('third_call_after_same_size_overwrite:%s' % impl_res['ok']['second']['third']['result'])
     rep.count('transfer_encoding:%s%s' % (case.get('encoding', 'identity'), ' over a loopback HTTP server' + (', data URL redirected' if case.get('redirect') else '') if case.get('server') else ' (in-process mock)'))
     rep.count('size_probe(HEAD):%s' % case.get('head', 'none'))
     rep.count('output_path:%s' % case.get('pathkind', 'path'))
